@@ -183,6 +183,9 @@ int _vnadata_extend_f(vnadata_internal_t *vdip, int new_f_allocation)
 			"realloc: %s", strerror(errno));
 		return -1;
 	    }
+	    (void)memset((void *)&clfpp[old_f_allocation], 0,
+		    (new_f_allocation - old_f_allocation) *
+		    sizeof(double complex *));
 	    vdip->vdi_z0_vector_vector = clfpp;
 	}
 
